@@ -42,12 +42,12 @@ pub fn spec() -> CheckSpec {
     ],
     real_components: "deno_graph builder/jsr store/packages/rt/serialisation, deno_ast+swc, futures, deno_unsync, deno_media_type decoding",
     stub_components: "Loader (two-tier world + fault plan), Executor, Locker, NpmResolver, Resolver, FileSystem, Reporter",
-    quick_cases: 260,
+    quick_cases: 800,
     thorough_cases: 12000,
     run_case,
     systematic: |t| match t {
-      Tier::Quick => 60,
-      Tier::Thorough => 2500,
+      Tier::Quick => 240,
+      Tier::Thorough => 4000,
     },
   }
 }
@@ -676,7 +676,7 @@ fn chain_contains(shape: &Shape, from: &str, needle: &str) -> bool {
 }
 
 fn small_world(tape: &mut Tape) -> World {
-  if tape.draw(Stream::World, 3) == 2 {
+  if tape.draw(Stream::World, 2) == 1 {
     let mut cfg = RegGenCfg::full();
     cfg.max_packages = 2;
     cfg.max_versions = 3;
@@ -701,6 +701,17 @@ pub fn run_case(tape: &mut Tape, tier: Tier, p: &CaseParams) -> CaseOutcome {
     world.lockfile.present || tape.draw(Stream::Options, 3) == 2;
   sem.prefer_cached_jsr = !world.registry.packages.is_empty()
     && tape.draw(Stream::Options, 4) == 3;
+  // sometimes the operation under test is a second build on a non-empty
+  // graph (no restart allowed there; single-package metadata reload instead)
+  let two_step = match p.systematic_index {
+    Some(i) => i % 3 == 2,
+    None => tape.draw(Stream::Options, 3) == 2,
+  };
+  if two_step {
+    // any earlier root makes the graph non-empty
+    sem.prelude_roots =
+      vec!["data:text/javascript,export default 1;".to_string()];
+  }
   let world_tape = tape.rec.world.clone();
   let options_tape = tape.rec.options.clone();
   // systematic cases sweep; seeded cases draw a plan (mode 0 = fault-free)
@@ -729,6 +740,21 @@ pub fn run_case(tape: &mut Tape, tier: Tier, p: &CaseParams) -> CaseOutcome {
   }
   let reqs: Vec<LoadRecord> = base.loads.clone();
   out.count("requests_in_base_worlds", reqs.len() as u64);
+  out.count("probe.second_build_on_nonempty_graph", two_step as u64);
+  out.count(
+    "probe.deferred_registry_content_load",
+    reqs
+      .iter()
+      .filter(|r| {
+        r.id.cs == CS_USE
+          && r.id.url.starts_with(REGISTRY)
+          && !is_metadata_url(&r.id.url)
+          && reqs.iter().any(|p| {
+            p.id.url == r.id.url && p.id.cs == CS_ONLY && p.seq < r.seq
+          })
+      })
+      .count() as u64,
+  );
   if reqs.is_empty() {
     return out;
   }
